@@ -97,8 +97,9 @@ PtOK(r) == \E c \in {[F |-> St(r.t, r.st, r.o), p |-> V(r.t, r.p), s |-> V(r.t, 
         /\ Near(V(t, r.s2), s, Mul(D!DScale(tolm, 2), Add(One, MaxAbsRow(s))))
         /\ Near(V(t, r.back), s, Mul(D!DScale(tolm, 2), Add(One, MaxAbsRow(s))))
         \* screenRadius and worldRadius are inverse, and scale by near / depth
-        /\ AbsLe(Sb(Mul(sr, D!DNeg(p[3])), Mul(rad, F.n)), Mul(E(t), Mul(rad, F.n)))
-        /\ D!DWithin(S(t, r.wr), rad, Mul(E(t), rad))
+        /\ D!DSign(F.n) > 0 =>
+             /\ AbsLe(Sb(Mul(sr, D!DNeg(p[3])), Mul(rad, F.n)), Mul(E(t), Mul(rad, F.n)))
+             /\ D!DWithin(S(t, r.wr), rad, Mul(E(t), rad))
 
 DepthOK(r) == \E F \in {St(r.t, r.st, r.o)} :
     LET t == r.t
